@@ -66,6 +66,7 @@ Inductive act :=
 | ACommit (ps : pstate)
 | ASetStable (k v : bytes)
 | AInitMeta
+| AList                       (* directory listing (only recorded when it fails)        *)
 | AFail (a : act).            (* the action was attempted and failed: no effect *)
 
 Definition bytes_eqb := beq_bytes.
@@ -130,6 +131,7 @@ Definition apply_act (d : disk) (a : act) : disk :=
          dk_inited := true |}
   | AInitMeta =>
       {| dk_files := dk_files d; dk_meta := dk_meta d; dk_stable := dk_stable d; dk_inited := true |}
+  | AList => d
   | AFail _ => d
   end.
 
@@ -219,31 +221,50 @@ Inductive result :=
 | RErrCorrupt | RErrIO | RErrFailed | RErrOther
 | RVal (v : N) | RLog (l : log) | RBytes (b : bytes).
 
+(* fault modes.  They are only in force while a counted fault is armed
+   (e_fault <> None): with e_fault = None every function below behaves as if
+   e_fx = fx_none (this is what keeps the fault-free developments untouched).
+     fx_del    every segment-file deletion fails (the file stays; the WAL only logs it)
+     fx_list   the next directory listing (Open) fails; one-shot
+     fx_leave  a file creation hit by the counted fault leaves the empty,
+               not preallocated file behind (fs.Create: O_EXCL open succeeded,
+               preallocation failed) *)
+Record fxmode := { fx_del : bool; fx_list : bool; fx_leave : bool }.
+Definition fx_none : fxmode := {| fx_del := false; fx_list := false; fx_leave := false |}.
+
 Record env := { e_acts : list act;            (* history, newest first *)
                 e_disk : disk;
                 e_fault : option nat;         (* successful I/O actions left before one fails *)
+                e_fx : fxmode;
                 e_m : metrics }.
+
+Definition armed (e : env) : bool := match e_fault e with Some _ => true | None => false end.
 
 (* one I/O action; false = it failed (and had no effect) *)
 Definition is_delete (a : act) : bool := match a with ADelete _ => true | _ => false end.
 
-(* Deletions are exempt from fault injection: the WAL issues them in Go map
-   order, so which of several deletions a fault would hit is not deterministic. *)
+(* Deletions are exempt from the counted fault: the WAL issues them in Go map
+   order, so which of several deletions a count would hit is not deterministic.
+   Instead, while a fault is armed and the mode fx_del is set, every deletion
+   fails (the file stays, the count is not used up). *)
 Definition io (a : act) (e : env) : bool * env :=
   if is_delete a then
+    if armed e && fx_del (e_fx e) then
+      (false, {| e_acts := AFail a :: e_acts e; e_disk := e_disk e; e_fault := e_fault e; e_fx := e_fx e; e_m := e_m e |})
+    else
     (true, {| e_acts := a :: e_acts e; e_disk := apply_act (e_disk e) a;
-              e_fault := e_fault e; e_m := e_m e |})
+              e_fault := e_fault e; e_fx := e_fx e; e_m := e_m e |})
   else
   match e_fault e with
-  | Some O => (false, {| e_acts := AFail a :: e_acts e; e_disk := e_disk e; e_fault := None; e_m := e_m e |})
+  | Some O => (false, {| e_acts := AFail a :: e_acts e; e_disk := e_disk e; e_fault := None; e_fx := e_fx e; e_m := e_m e |})
   | Some (S n) => (true, {| e_acts := a :: e_acts e; e_disk := apply_act (e_disk e) a;
-                            e_fault := Some n; e_m := e_m e |})
+                            e_fault := Some n; e_fx := e_fx e; e_m := e_m e |})
   | None => (true, {| e_acts := a :: e_acts e; e_disk := apply_act (e_disk e) a;
-                      e_fault := None; e_m := e_m e |})
+                      e_fault := None; e_fx := e_fx e; e_m := e_m e |})
   end.
 
 Definition with_m (e : env) (m : metrics) : env :=
-  {| e_acts := e_acts e; e_disk := e_disk e; e_fault := e_fault e; e_m := m |}.
+  {| e_acts := e_acts e; e_disk := e_disk e; e_fault := e_fault e; e_fx := e_fx e; e_m := m |}.
 
 (* ------------------------------------------------------------------ *)
 (* sorted segment map (immutable.SortedMap keyed by BaseIndex)          *)
@@ -309,6 +330,10 @@ Definition new_wseg (si : seginfo) : wseg :=
   {| ws_name := name_of si; ws_base := si_base si; ws_min := si_min si; ws_limit := si_size_limit si;
      ws_n := 0; ws_off := 0; ws_hdr := true; ws_index_start := 0; ws_commit_idx := 0 |}.
 
+(* the failed creation left the directory entry of an empty file behind *)
+Definition leave_entry (n : fname) (e : env) : env :=
+  {| e_acts := e_acts e; e_disk := apply_act (e_disk e) (ACreate n 0); e_fault := e_fault e; e_fx := e_fx e; e_m := e_m e |}.
+
 (* Filer.Create *)
 Definition seg_create (si : seginfo) (e : env) : option wseg * env :=
   if si_base si =? 0 then (None, e)
@@ -317,7 +342,8 @@ Definition seg_create (si : seginfo) (e : env) : option wseg * env :=
            let '(_, e') := io (AFail (ACreate (name_of si) (si_size_limit si))) e in (None, e')
        | None =>
            let '(ok, e') := io (ACreate (name_of si) (si_size_limit si)) e in
-           if ok then (Some (new_wseg si), e') else (None, e')
+           if ok then (Some (new_wseg si), e')
+           else (None, if fx_leave (e_fx e) then leave_entry (name_of si) e' else e')
        end.
 
 (* Writer.Append for already encoded logs: (result, writer) *)
@@ -797,12 +823,20 @@ Fixpoint open_segs (c : cfg) (segs : list seginfo) (acc : list seginfo) (e : env
 Definition listed (segs : list seginfo) (n : fname) : bool :=
   existsb (fun s => fname_eqb (name_of s) n) segs.
 
+Definition list_failed (e : env) : env :=
+  {| e_acts := AFail AList :: e_acts e; e_disk := e_disk e; e_fault := e_fault e;
+     e_fx := {| fx_del := fx_del (e_fx e); fx_list := false; fx_leave := fx_leave (e_fx e) |};
+     e_m := e_m e |}.
+
 Definition open_wal (c : cfg) (e : env) : open_res * env :=
   if negb (FirstExternalCodecID <=? c_codec c) && negb (c_codec c =? BinaryCodecID) then (OErr RErrOther, e)
   else
     (* MetaStore.Load initialises the database when it does not exist *)
     let '(ok0, e0) := if dk_inited (e_disk e) then (true, e) else io AInitMeta e in
     if negb ok0 then (OErr RErrIO, e0)
+    else if armed e0 && fx_list (e_fx e0) then
+      (* SegmentFiler.List fails (one-shot): Open gives up after MetaStore.Load *)
+      (OErr RErrIO, list_failed e0)
     else
       let ps := match dk_meta (e_disk e0) with
                 | Some ps => ps
